@@ -314,10 +314,11 @@ def items():
             lambda fn=fn, lean=lean: "  " + _decorated(fn, "fun pixels => genNormalize%sRaw np pixels mode err" % lean,
                                                        "(fun p => p.shape)"))
     # ---- no_op, gradient, gaussian_filter
-    add("def genNoOpRaw {P : Type} (pixels : P) : Except Err P :=", EXC,
-        lambda: T([("$p.copy()", "{p}")]).function(FE.no_op, {"pixels": "pixels"}, ind=1))
+    # `.copy()` is a word of its own: the result type `Fresh P` cannot be met by returning the argument itself
+    add("def genNoOpRaw {P : Type} (pixels : P) : Except Err (Fresh P) :=", EXC,
+        lambda: T([("$p.copy()", "(Fresh.mk {p})")]).function(FE.no_op, {"pixels": "pixels"}, ind=1))
     add("def genNoOp {P : Type} (sh : P → List Nat) : Arg P → Except Err (Arg P) :=", "fun _ => " + EXC,
-        lambda: "  " + _decorated(FE.no_op, "genNoOpRaw", "sh"))
+        lambda: "  " + _decorated(FE.no_op, "fun pixels => (genNoOpRaw pixels).map Fresh.val", "sh"))
     add("def genGradientRaw (isU8 : Bool) (pixels : Px) : Except Err Px :=", EXC,
         lambda: T(GRADIENT_RULES, raise_by={"TypeError": ".error (.feature codeTypeError)"}).function(
             FE.gradient, {"pixels": "pixels"}, ind=1))
